@@ -80,13 +80,21 @@ def _flow_class(case, m, r) -> Optional[Dict[str, Any]]:
         return None
     if real == "UNKNOWN_PARAM":
         return {"kind": "UNKNOWN_PARAM"}
-    if real != model:
+    if real is None:
+        # the reference predicts a flow failure, the real run failed earlier / for another reason: not decidable here
         return {"kind": "CLASSIFICATION_DISAGREES", "real": real, "model": model}
-    idx = m["fail"]["index"]
+    # the traceback proves the class of the real failure; the reference is only used to describe it
+    agrees = real == model
+    idx = m["fail"]["index"] if agrees else min(len(r.get("published") or []), len(case["nodes"]) - 1)
     node = case["nodes"][idx]
     feats: Dict[str, Any] = {"kind": real, "node": nodekind(node)}
+    if not agrees:
+        feats["reference_predicts"] = model or "success"
     if real == "UNRESOLVED":
-        key = m["fail"]["detail"]
+        import re as _re
+
+        mm = _re.search(r"parameter '([^']+)'", str(exc))
+        key = m["fail"]["detail"] if agrees else (mm.group(1) if mm else "?")
         later = any(key in M.describe(n)["created"] for n in case["nodes"][idx + 1:])
         self_c = key in M.describe(node)["created"]
         earlier_del = any(key in M.describe(n)["suppressed"] for n in case["nodes"][:idx])
